@@ -673,17 +673,21 @@ fn left_recursion<'a, 'i: 'a>(rules: HashMap<String, &'a ParserNode<'i>>) -> Vec
                 None
             }
             ParserExpr::Seq(ref lhs, ref rhs) => {
-                if is_non_failing(&lhs.expr, rules, &mut vec![trace.last().unwrap().clone()])
-                    || is_non_progressing(
-                        &lhs.expr,
-                        rules,
-                        &mut vec![trace.last().unwrap().clone()],
-                    )
-                {
-                    check_expr(rhs, rules, trace)
-                } else {
-                    check_expr(lhs, rules, trace)
-                }
+                // The head of a sequence is always in leftmost position; what follows it is
+                // too whenever the head can succeed without consuming input.
+                check_expr(lhs, rules, trace).or_else(|| {
+                    if is_non_failing(&lhs.expr, rules, &mut vec![trace.last().unwrap().clone()])
+                        || is_non_progressing(
+                            &lhs.expr,
+                            rules,
+                            &mut vec![trace.last().unwrap().clone()],
+                        )
+                    {
+                        check_expr(rhs, rules, trace)
+                    } else {
+                        None
+                    }
+                })
             }
             ParserExpr::Choice(ref lhs, ref rhs) => {
                 check_expr(lhs, rules, trace).or_else(|| check_expr(rhs, rules, trace))
@@ -694,6 +698,12 @@ fn left_recursion<'a, 'i: 'a>(rules: HashMap<String, &'a ParserNode<'i>>) -> Vec
             ParserExpr::PosPred(ref node) => check_expr(node, rules, trace),
             ParserExpr::NegPred(ref node) => check_expr(node, rules, trace),
             ParserExpr::Push(ref node) => check_expr(node, rules, trace),
+            ParserExpr::RepExact(ref node, _)
+            | ParserExpr::RepMin(ref node, _)
+            | ParserExpr::RepMax(ref node, _)
+            | ParserExpr::RepMinMax(ref node, _, _) => check_expr(node, rules, trace),
+            #[cfg(feature = "grammar-extras")]
+            ParserExpr::NodeTag(ref node, _) => check_expr(node, rules, trace),
             _ => None,
         }
     }
